@@ -331,6 +331,66 @@ class _SimFile:
             pass
 
 
+class _SimRaw(io.RawIOBase):
+    """The kernel-level side of a file opened for writing inside the sim directory.  The SUT gets Python's own
+    BufferedWriter on top of it (with the buffer size the scheduler chose for this incarnation), so what reaches the
+    disk - and when - is decided by CPython's real buffering logic; every raw write / close is an interception point,
+    and bytes still sitting in the user-space buffer are not in a crash world, exactly as for a killed process."""
+
+    def __init__(self, disk: "SimDisk", real: Any, path: str):
+        super().__init__()
+        self._disk = disk
+        self._real = real
+        self._path = path
+
+    def writable(self) -> bool:
+        return True
+
+    def seekable(self) -> bool:
+        return True
+
+    def readable(self) -> bool:
+        return False
+
+    def fileno(self) -> int:
+        return self._real.fileno()
+
+    def seek(self, *a: Any) -> int:
+        return self._real.seek(*a)
+
+    def tell(self) -> int:
+        return self._real.tell()
+
+    def truncate(self, *a: Any) -> int:
+        return self._real.truncate(*a)
+
+    def write(self, b: Any) -> int:
+        data = bytes(b)
+        if not self._disk.alive:
+            return len(data)  # a buffer flushed by the garbage collector after the incarnation ended: dropped
+        self._disk.point("write", "before", self._path, pending=data)
+        n = self._real.write(data)
+        self._disk.point("write", "after", self._path)
+        return n
+
+    def close(self) -> None:
+        if self.closed:
+            return
+        if not self._disk.alive:
+            try:
+                self._real.close()
+            finally:
+                super().close()
+            return
+        self._disk.point("close", "before", self._path)
+        try:
+            self._real.close()
+        finally:
+            super().close()
+        self._disk.file_completed(self._path)
+        self._disk.point("close", "after", self._path)
+
+
 class SimDisk:
     """A real directory + numbered interception points.
 
@@ -354,6 +414,10 @@ class SimDisk:
         self.on_file_completed: Optional[Callable[[str, bytes], None]] = None
         self.context: Callable[[], dict] = lambda: {}
         self.opcount: dict[str, int] = {}
+        self.alive = True
+        # size of the user-space write buffer of files the SUT opens with default buffering.  CPython takes it from
+        # st_blksize (4 KiB ... 1 MiB depending on the file system), so it is a knob the scheduler may turn per incarnation
+        self.buffer_size = io.DEFAULT_BUFFER_SIZE
 
     # ---- helpers
     def inside(self, path: Any) -> bool:
@@ -421,6 +485,12 @@ class SimDisk:
             self.log.add("fault", n=n, fault=kind, arg=(fault[1] if len(fault) > 1 else None))
             if kind == "crash":
                 raise SimCrash(f"crash at fs point {n} ({op}:{phase} {name})")
+            if kind == "interrupt":
+                # the user's Ctrl-C (or any asynchronous exception) arriving at this instant: unlike a crash the process
+                # unwinds - context managers close files, finally blocks run - before it dies
+                intr = KeyboardInterrupt(f"interrupt at fs point {n} ({op}:{phase} {name})")
+                intr._emusim_injected = True  # type: ignore[attr-defined]
+                raise intr
             if kind == "error" and phase == "before":
                 code = fault[1]
                 err = OSError(code, os.strerror(code), os.fspath(path))
@@ -442,7 +512,12 @@ def install_disk(rb: _Rebinder, disk: SimDisk) -> None:
             disk.point("open_w", "before", file)
             real = real_open(file, mode, 0, *a, **kw)
             disk.point("open_w", "after", file)
-            return _SimFile(disk, real, os.fspath(file))
+            if "+" in mode:
+                return _SimFile(disk, real, os.fspath(file))  # read/write handles: unbuffered, every write is a point
+            raw = _SimRaw(disk, real, os.fspath(file))
+            if buffering == 0:
+                return raw
+            return io.BufferedWriter(raw, buffer_size=buffering if buffering > 1 else disk.buffer_size)
         if _is_write_mode(mode):
             # text-mode writes inside the sim dir (log files): not part of any protocol
             return real_open(file, mode, buffering, *a, **kw)
@@ -460,6 +535,8 @@ def install_disk(rb: _Rebinder, disk: SimDisk) -> None:
                 return real(src, dst, *a, **kw)
             disk.point(op, "before", src, dst=dst)
             r = real(src, dst, *a, **kw)
+            if disk.inside(dst):
+                disk.file_completed(os.fspath(dst))  # a file became visible under a new name
             disk.point(op, "after", src, dst=dst)
             return r
 
@@ -586,6 +663,7 @@ class World:
         self.root = os.path.join(SIM_ROOT, f"{os.getpid():08d}_{run_id}")  # fixed length: the path is part of the pickled solver state, so its length must not vary
         self.n_inc = 0
         self.uuid_seed = 1
+        self.buffer_size: int | None = None  # write-buffer size of the SUT's files in every incarnation of this run
 
     @contextmanager
     def incarnation(
@@ -595,6 +673,7 @@ class World:
         rng_state: dict | None = None,
         perm_chooser: Callable | None = None,
         fs: bool = True,
+        buffer_size: int | None = None,
     ):
         idx = self.n_inc
         self.n_inc += 1
@@ -608,6 +687,8 @@ class World:
                 with io.FileIO(os.path.join(d, name), "w") as f:
                     f.write(data)
         inc = Incarnation(self, idx, d)
+        if buffer_size or self.buffer_size:
+            inc.disk.buffer_size = int(buffer_size or self.buffer_size)
         old_cwd = os.getcwd()
         saved_rng = rng_snapshot()
         simuuid = SimUUID(self.uuid_seed * 1000 + idx)
@@ -628,6 +709,7 @@ class World:
             self.log.add("incarnation", index=idx, files=sorted((files or {}).keys()))
             yield inc
         finally:
+            inc.disk.alive = False
             inc.rb.restore()
             os.chdir(old_cwd)
             rng_restore(saved_rng)
